@@ -363,7 +363,7 @@ impl CKKSEncoder {
         destination.data_mut().fill(0);
         
         let max_coeff = values.iter()
-            .map(|x| x.abs())
+            .map(|x| (x * scale).abs())
             .reduce(f64::max)
             .unwrap();
         // Verify that the values are not too large to fit in coeff_modulus
